@@ -78,6 +78,8 @@ impl MT296 {
             });
         }
 
+        crate::parser::utils::verify_parser_complete(&parser)?;
+
         Ok(MT296 {
             field_20,
             field_21,
